@@ -2463,8 +2463,15 @@ def run_stress(case, cfg, out):
                 time.sleep(min(0.4, max(0.05, t_end - time.time())))
                 stop[0] = True
             for t in ths:
-                t.join()
+                t.join(120)
             stop[0] = True
+            if any(t.is_alive() for t in ths):
+                # not a verdict about the property: reported as a harness
+                # error with the stacks of all threads
+                import faulthandler
+                faulthandler.dump_traceback(all_threads=True)
+                raise RuntimeError('stress threads did not stop within '
+                                   '120 s (stacks on stderr)')
             out.checks += 1
             # restore shared specifications if the mutator died in the
             # middle of a cycle
